@@ -149,6 +149,10 @@ func main() {
 		bodiesReport(fset, pkgs)
 		return
 	}
+	if len(os.Args) > 2 && os.Args[2] == "state" {
+		stateReport(dir, fset, pkgs)
+		return
+	}
 	if len(os.Args) > 2 && os.Args[2] == "datum" {
 		datumReport(fset, pkgs)
 		return
